@@ -615,7 +615,13 @@ func run(r *mon.Run) {
 				"value-with-newline": hdrs("x", "a\r\nb: c"),
 				"value-with-nul":     hdrs("x", "a\x00b"),
 				"long-value":         hdrs("x", strings.Repeat("v", 70000)),
-				"many-headers":       func() []rbundle.BHeader { var h []rbundle.BHeader; for i := 0; i < 300; i++ { h = append(h, rbundle.BHeader{Name: fmt.Sprintf("x-%03d", i), Value: "v"}) }; return h }(),
+				"many-headers": func() []rbundle.BHeader {
+					var h []rbundle.BHeader
+					for i := 0; i < 300; i++ {
+						h = append(h, rbundle.BHeader{Name: fmt.Sprintf("x-%03d", i), Value: "v"})
+					}
+					return h
+				}(),
 			}
 			for name, h := range variants {
 				ok := name == "plain" || name == "empty-value" || name == "long-value" || name == "many-headers" || name == "empty-name" || name == "name-with-space" || name == "name-with-colon" || name == "value-with-newline" || name == "value-with-nul"
